@@ -366,11 +366,13 @@ def rangeList (lo : Int) : Nat → List (Val N)
 
 def isIntegerN (x : N) : Bool := beq x (trunc x)
 
-/-- the members of `[a..b]`: the lower bound itself, then its successors (the first member is not
-    converted to an integer and back: it may be as large as 1e300) -/
-def rangeFrom (a : N) : Nat → List (Val N)
-  | 0 => []
-  | n + 1 => .num a :: rangeList (toInt a + 1) n
+/-- the members of `[a..b]`: the i-th member is `a + i` computed in the number system (for doubles:
+    the double nearest to the i-th integer; beyond 2^53 not every integer is representable) -/
+def rangeFromAux (a : N) : Nat → Nat → List (Val N)
+  | _, 0 => []
+  | i, n + 1 => .num (add a (ofInt i)) :: rangeFromAux a (i + 1) n
+
+def rangeFrom (a : N) (n : Nat) : List (Val N) := rangeFromAux a 0 n
 
 /-- eval.go `evalRange` after both bounds are evaluated. -/
 def rangeOp (l r : Option (Val N)) : Except Err (Option (Val N)) :=
